@@ -102,6 +102,15 @@ func c03Leaves(inMacro bool) []c03Prog {
 	for _, b := range c03VerbatimBodies() {
 		ls = append(ls, c03Code("{% verbatim %}"+b+"{% endverbatim %}", "{%verbatim%}"+b+"{%endverbatim%}", b))
 	}
+	// tags and prints that merely mention the words "verbatim" / "endverbatim" as a variable, key, loop variable or
+	// block name: what follows them is still template code
+	ls = append(ls,
+		c03Code("{% set verbatim = 'w' %}", "{%set verbatim='w'%}", ""),
+		c03Code("{% if verbatim %}{% endif %}", "{%if verbatim%}{%endif%}", ""),
+		c03Code("{% for verbatim in [1] %}f{% endfor %}", "{%for verbatim in[1]%}f{%endfor%}", "f"),
+		c03Code("{{ {verbatim: 'h'}.verbatim }}", "{{{verbatim:'h'}.verbatim}}", "h"),
+		c03Code("{% set endverbatim = 1 %}", "{%set endverbatim=1%}", ""),
+	)
 	return ls
 }
 
